@@ -146,6 +146,8 @@ aset_api!(A32u16, U32ArraySetMut, U32ArraySet, 4, u16, 2);
 aset_api!(A32keyed, U32ArraySetMut, U32ArraySet, 4, Keyed, 4);
 aset_api!(A64u8, U64ArraySetMut, U64ArraySet, 8, u8, 1);
 aset_api!(A64u64, U64ArraySetMut, U64ArraySet, 8, u64, 8);
+aset_api!(A8b3, U8ArraySetMut, U8ArraySet, 1, B3, 3);
+aset_api!(A16b12, U16ArraySetMut, U16ArraySet, 2, B12, 12);
 
 fn le(bytes: &[u8]) -> u128 {
     let mut x = 0u128;
